@@ -672,6 +672,11 @@ add("b19", ["C16"], [(P, "        changes = False\n        for job in self.jobs:
                      (P, "        return not changes\n", "        return fine\n")], expect='silent')
 add("b19b", ["C16"], (P, "            job.required &= self.jobs\n", "            job.required = job.required & self.jobs\n"), expect='silent')
 
+add('m16p', ["C16"], (P, '            before = len(job.required)\n            job.required &= self.jobs\n            job._s_successors &= self.jobs\n            after = len(job.required)\n            if before != after:\n', '            before = job.required\n            job.required &= self.jobs\n            job._s_successors &= self.jobs\n            after = len(job.required)\n            if before - job.required:\n'), rules=['R16.4'], note='seed C16-R3A: alias of a set pruned in place')
+add('m16q', ["C16"], (P, '            before = len(job.required)\n            job.required &= self.jobs\n            job._s_successors &= self.jobs\n            after = len(job.required)\n            if before != after:\n', '            before = job.required\n            job.required.intersection_update(self.jobs)\n            job._s_successors &= self.jobs\n            after = 0\n            if len(before) != len(job.required):\n'), rules=['R16.4'])
+add('b16p', ["C16"], (P, '            before = len(job.required)\n            job.required &= self.jobs\n            job._s_successors &= self.jobs\n            after = len(job.required)\n            if before != after:\n', '            before = set(job.required)\n            job.required &= self.jobs\n            job._s_successors &= self.jobs\n            after = len(job.required)\n            if before - job.required:\n                before = len(before)\n'), expect='silent')
+add('b16q', ["C16"], (P, '            before = len(job.required)\n            job.required &= self.jobs\n            job._s_successors &= self.jobs\n            after = len(job.required)\n            if before != after:\n', '            dangling = job.required - self.jobs\n            job.required -= dangling\n            job._s_successors &= self.jobs\n            before, after = len(dangling), 0\n            if dangling:\n'), expect='nofalse')
+add('b16r', ["C16"], (P, '            before = len(job.required)\n            job.required &= self.jobs\n            job._s_successors &= self.jobs\n            after = len(job.required)\n            if before != after:\n', '            before = job.required\n            job.required = job.required & self.jobs\n            job._s_successors &= self.jobs\n            after = len(job.required)\n            if before - job.required:\n                before = len(before)\n'), expect='silent', note='rebinding leaves the alias with the old contents')
 # ------------------------------------------------------------------ C17
 add("m17a", ["C17"], [(P, '        return self._neighbours("required", *starts)', '        return self._neighbours("_s_successors", *starts)'),
                       (P, '        yield from self._neighbours("_s_successors", *starts)', '        yield from self._neighbours("required", *starts)')],
@@ -1021,3 +1026,80 @@ add("b46", ALLRUN + ["C07", "C10", "C14"], [(P, """        No automatic shutdown
     async def _co_run(self):
         # create a Window no matter what; it will know what to do""")], expect='silent',
     note="co_run delegates to a private coroutine holding the loop")
+
+# ------------------------------------------------------------------ rules added after the third seeding round
+SCHED_TAIL = ("""        # we should not reach this point
+        raise ValueError("Internal error in Scheduler.co_run()")
+""")
+add("m01s", ["C01", "C12", "C03"], (S, SCHED_TAIL, SCHED_TAIL + """
+    def is_done(self):
+        return all(job.is_done() for job in self.jobs if not job.forever)
+"""), rules=["R01.3", "R12.8", "R03.2"], note="seeds C01-R3A / C12-R3C: done computed from the members, not from the scheduler's own task")
+add("m14s", ["C14"], (S, SCHED_TAIL, SCHED_TAIL + """
+    def is_running(self):
+        return any(job.is_running() for job in self.jobs)
+"""), rules=["R14.1"], note="seed C14-R3B")
+add("m02s", ["C02", "C04", "C05", "C06", "C14"], (S, SCHED_TAIL, SCHED_TAIL + """
+    def raised_exception(self):
+        for job in self.jobs:
+            if job.critical and job.raised_exception():
+                return job.raised_exception()
+        return None
+"""), rules=["R02.6", "R04.7", "R05.7", "R06.7", "R14.1"], note="seed C02-R3C")
+add("b01s", ["C01", "C12", "C14", "C02"], (S, SCHED_TAIL, SCHED_TAIL + """
+    def is_done(self):
+        return AbstractJob.is_done(self)
+
+    def raised_exception(self):
+        return AbstractJob.raised_exception(self)
+"""), expect='silent', note="explicit overrides that delegate to the job side")
+add("m04r", ["C04"], (P, "        return loop.run_until_complete(self.co_run(*args, **kwds))",
+                      "        try:\n            return loop.run_until_complete(self.co_run(*args, **kwds))\n"
+                      "        except Exception:\n            return False"), rules=["R04.6"])
+add("m04s", ["C04"], (P, "        return loop.run_until_complete(self.co_run(*args, **kwds))",
+                      "        return bool(loop.run_until_complete(asyncio.wait_for(self.co_run(*args, **kwds), self.timeout)))"),
+    rules=["R04.6"])
+add("m04t", ["C04"], (P, "        return loop.run_until_complete(self.co_run(*args, **kwds))",
+                      "        loop.run_until_complete(self.co_run(*args, **kwds))\n        return not self.failed_critical()"),
+    rules=["R04.6"])
+add("b04r", ["C04"], (P, "        return loop.run_until_complete(self.co_run(*args, **kwds))",
+                      "        verdict = loop.run_until_complete(self.co_run(*args, **kwds))\n        return verdict"),
+    expect='silent')
+add("m13r", ["C13"], (P, """        return asyncio.get_event_loop().run_until_complete(
+            self.co_shutdown())""", """        asyncio.get_event_loop().run_until_complete(
+            self.co_shutdown())
+        return True"""), rules=["R13.7"])
+add("m19r", ["C19"], (P, """        self.jobs.remove(job)
+        return self""", """        self.jobs.remove(job)
+        for other in self.jobs:
+            other.required.discard(job)
+        return self"""), rules=["R19.8"], note="seed C19-R3C")
+add("m19s", ["C19"], (P, """        self.jobs.remove(job)
+        return self""", """        self.jobs.remove(job)
+        for other in self.jobs:
+            reqs = other.required
+            reqs -= {job}
+        return self"""), rules=["R19.8"])
+add("b19r", ["C19"], (P, """        self.jobs.remove(job)
+        return self""", """        self.jobs.remove(job)
+        dangling = [other for other in self.jobs if job in other.required]
+        if dangling and self.verbose:
+            print("WARNING", len(dangling), "jobs still require the removed job")
+        return self"""), expect='silent')
+add("m01t", ["C01"], (J, """        return self._task is not None \\
+            and self._task._state == asyncio.futures._FINISHED""", """        if getattr(self, '_done_cache', False):
+            return True
+        self._done_cache = self._task is not None \\
+            and self._task._state == asyncio.futures._FINISHED
+        return self._done_cache"""), rules=["R01.6"], note="seed C01-R3C")
+add("m20r", ["C20"], (P, """            id_format = "{{:0{w}d}}".format(w=width)""", """            id_format = "{{:{w}d}}".format(w=width)"""), rules=["R20.7"], note="seed C20-R3B")
+add("m20s", ["C20"], (P, """            id_format = "{{:0{w}d}}".format(w=width)""", """            id_format = "# {{:0{w}d}}".format(w=width)"""), rules=["R20.7"])
+add("b20r", ["C20"], (P, """            id_format = "{{:0{w}d}}".format(w=width)""", """            id_format = "{{:0>{w}d}}".format(w=width)"""), expect='silent')
+add("m03w", ["C03", "C07", "C10"], [(P, "        window = Window(self.jobs_window)", "        window = getattr(self, '_outer_window', None) or Window(self.jobs_window)"),
+                             (P, """        #
+        # this is where we call co_run()
+        #""", """        if isinstance(job, PureScheduler) and not job.jobs_window:
+            job._outer_window = window
+        #
+        # this is where we call co_run()
+        #""")], rules=["R03.6", "R07.3", "R10.2w"], note="seed C03-R3C")
